@@ -55,6 +55,18 @@ T = {
            "an accepted user-supplied integral of motion with a spectrum that is not (half-)integer, e.g. (N_up-N_dn)/4"),
  "C09-b": ("C09", "Hamiltonian::computeGroundEnergy keeps a running minimum but starts the loop at block 1 (block 0, the vacuum, is never considered)",
            "the vacuum is the unique ground state AND beta*e1 > ~709 (then exp overflows and the weights become NaN); C03's ground-energy statement is violated for every model whose minimum sits in block 0"),
+ "C04-b": ("C04", "normalize_and_insert emits the contraction term of c_a c+_a only when the monomial has more than two operators: for a two-operator monomial the constant 1 is lost",
+           "a lattice term whose first two operators are an annihilator followed by the creator of the same mode (hole form c_a c+_a ...); every preset starts with a creator"),
+ "C05-b": ("C05", "Operator::actRight completes the half-written running-parity optimisation; the downward loop visits (ind,prev] instead of [ind,prev)",
+           "monomial shapes that do not conserve particle number or are unbalanced (c c, c+ c+, c+ c+ c, c c c): sign flipped; hoppings and density terms unaffected"),
+ "C10-b": ("C10", "FieldOperatorPart::compute takes l=k when the part maps a block onto itself ('skip the linear search')",
+           "a part whose left and right block coincide for an operator that is not diagonal in the Fock basis: c+_i c_j (i!=j, same spin), or c/c+ with symmetries ignored"),
+ "C13-b": ("C13", "IndexContainer4::operator() uses lower_bound instead of find: an absent key with a larger key present returns that other entry",
+           "a partially filled container (prepareAll with an explicit set) and an on-demand lookup of a quadruple outside the set that sorts below a present key"),
+ "C14-b": ("C14", "SusceptibilityPart::Term::operator()(tau,beta) branch condition inverted (Pole<0 instead of Pole>0): every pole takes the overflow-prone form",
+           "of_tau() with beta*|pole| > 709.78 at tau near 0 or beta (NaN); Matsubara values bit-identical"),
+ "C15-b": ("C15", "Vertex4::value exchanges the frequency arguments of the exchange disconnected term: G14(n2)*G23(n1)",
+           "n2==n3, n1!=n2 and an index combination with G14 != G23 (e.g. (i,j,j,i) with spin-split levels); storage and value() still agree with each other"),
 }
 results = {}
 for log in sys.argv[1:]:
